@@ -7,6 +7,7 @@ import FontVerif.Model.HandAat
 set_option linter.unusedVariables false
 namespace FontVerif.HandAat
 open FontVerif FontVerif.HandRead
+open FontVerif.ReadIter (Out run items trapped)
 
 theorem beValue_lt (bs : List Nat) (hb : ∀ b ∈ bs, b < 256) : beValue bs < 256 ^ bs.length := by
   unfold beValue
@@ -806,5 +807,457 @@ theorem ltagTags_facts (d : List Nat) (n : Nat) (hr : ltagRead d = some n) (hl :
   refine ⟨xs, h1, by simpa using h2, hn, fun t ht => ?_⟩
   obtain ⟨a, b, c⟩ := h3 t ht
   exact ⟨List.mem_range.mp a, b, c⟩
+
+/-! ## IFT -/
+
+/-- termination, trip bound, trap freedom and a property of every item from ONE step lemma; the
+invariant only has to survive the trips that do not end the iteration -/
+theorem run_inv {σ α : Type} (step : σ → Out α × σ) (μ : σ → Nat) (Inv : σ → Prop) (P : α → Prop)
+    (hstep : ∀ s, Inv s → (step s).1 ≠ .trap ∧
+      ((step s).1 ≠ .done → Inv (step s).2 ∧ μ (step s).2 < μ s) ∧
+      (∀ a, (step s).1 = .yield a → P a)) :
+    ∀ (f : Nat) (s : σ), Inv s → μ s < f →
+      ∃ evs, run step f s = some evs ∧ evs.length ≤ μ s ∧ trapped evs = false ∧ ∀ a ∈ items evs, P a := by
+  intro f
+  induction f with
+  | zero => intro s _ h; omega
+  | succ f ih =>
+    intro s hi hf
+    obtain ⟨hnt, hnd, hy⟩ := hstep s hi
+    unfold run
+    split
+    · exact ⟨[], rfl, by simp, by simp [trapped], by simp [items]⟩
+    · rename_i s' hs
+      rw [hs] at hnt; exact absurd rfl hnt
+    · rename_i s' hs
+      rw [hs] at hnd
+      obtain ⟨hi', hlt⟩ := hnd (by simp)
+      obtain ⟨evs, he, hl, ht, hp⟩ := ih s' hi' (by simp only at hlt; omega)
+      refine ⟨.cont :: evs, by simp [he], by simp only [List.length_cons]; simp only at hlt; omega,
+        by simpa [trapped] using ht, by simpa [items] using hp⟩
+    · rename_i a s' hs
+      rw [hs] at hnd hy
+      obtain ⟨hi', hlt⟩ := hnd (by simp)
+      obtain ⟨evs, he, hl, ht, hp⟩ := ih s' hi' (by simp only at hlt; omega)
+      refine ⟨.yield a :: evs, by simp [he], by simp only [List.length_cons]; simp only at hlt; omega,
+        by simpa [trapped] using ht, ?_⟩
+      intro x hx
+      simp only [items, List.mem_cons] at hx
+      rcases hx with rfl | hx
+      · exact hy x rfl
+      · exact hp x hx
+
+theorem compatFromU32s_eq (a b c e : Nat) :
+    compatFromU32s [a, b, c, e] = some (beBytes 4 a ++ beBytes 4 b ++ beBytes 4 c ++ beBytes 4 e) := by
+  simp [compatFromU32s, compatOuter, compatInner, beBytes, List.range_succ, List.replicate]
+
+
+theorem f1Read_some {d : List Nat} {h : F1Hdr} (hr : f1Read d = some h) :
+    h.maxEntry = beAt d 21 2 ∧ h.glyphCount = beAt d 25 3 ∧ h.bitmapLen = (h.maxEntry + 1 + 7) / 8 ∧
+      36 + h.bitmapLen + 2 + h.uriLen + 1 ≤ d.length := by
+  unfold f1Read at hr
+  cases h4 : readAt d 4 1 with
+  | none => simp [h4] at hr
+  | some flags =>
+    cases h21 : readAt d 21 2 with
+    | none => simp [h4, h21] at hr
+    | some mei =>
+      simp only [h4, h21] at hr
+      cases hu : readAt d (36 + (mei + 1 + 7) / 8) 2 with
+      | none => simp [hu] at hr
+      | some ul =>
+        simp only [hu, Option.ite_none_right_eq_some, Option.some.injEq] at hr
+        obtain ⟨he, hr⟩ := hr
+        subst hr
+        simp only
+        exact ⟨(readAt_some h21).2, trivial, trivial, by omega⟩
+
+theorem glyphMapRead_ok {sub : List Nat} {gc mei : Nat} {g : GmView} (h : glyphMapRead sub gc mei = .ok g) :
+    g.first = beAt sub 0 2 ∧ g.size = u8or16Size mei ∧ g.data.length = (gc - g.first) * g.size ∧
+      2 + g.data.length ≤ sub.length ∧ g.data = (sub.drop 2).take g.data.length := by
+  unfold glyphMapRead at h
+  cases h0 : readAt sub 0 2 with
+  | none => simp [h0] at h
+  | some first =>
+    simp only [h0] at h
+    cases hm : checkedMul (gc - first) (u8or16Size mei) with
+    | none => simp [hm] at h
+    | some bl =>
+      obtain ⟨hbl, _⟩ := checkedMul_some hm
+      simp only [hm] at h
+      split at h
+      · rename_i hfit
+        injection h with h
+        subst h
+        simp only [List.length_take, List.length_drop]
+        have : min bl (sub.length - 2) = bl := by omega
+        rw [this]
+        refine ⟨(readAt_some h0).2, ?_, hbl, hfit, ?_⟩ <;> first | rfl | trivial
+      · cases h
+
+theorem compGet_some {dl il idx off : Nat} (h : compGet dl il idx = some off) :
+    off = idx * il ∧ off + il ≤ dl := by
+  unfold compGet at h
+  cases hm : checkedMul idx il with
+  | none => simp [hm] at h
+  | some o =>
+    obtain ⟨ho, _⟩ := checkedMul_some hm
+    simp only [hm] at h
+    split at h
+    · injection h with h; subst h; exact ⟨ho, by assumption⟩
+    · cases h
+
+/-- one trip of `GidToEntryIter::next` from a state at or above `first_mapped_glyph` -/
+theorem gidStep_facts (g : GmView) (gc s : Nat) (hgc : gc < 16777216) (hf : g.first < 65536)
+    (hs : g.first ≤ s ∧ s ≤ max g.first gc) :
+    (gidStep (some g) gc s).1 ≠ .trap ∧
+    ((gidStep (some g) gc s).1 ≠ .done →
+      (g.first ≤ (gidStep (some g) gc s).2 ∧ (gidStep (some g) gc s).2 ≤ max g.first gc) ∧
+      gc - (gidStep (some g) gc s).2 < gc - s) ∧
+    (∀ a, (gidStep (some g) gc s).1 = .yield a →
+      g.first ≤ a.1 ∧ a.1 < gc ∧ 0 < a.2 ∧
+      (a.1 - g.first) * g.size + g.size ≤ g.data.length ∧ a.2 = beAt g.data ((a.1 - g.first) * g.size) g.size) := by
+  unfold gidStep
+  simp only []
+  have h1 : ¬ (s + 1 > 4294967295) := by omega
+  simp only [h1, ↓reduceIte]
+  by_cases h2 : s ≥ gc
+  · simp only [h2, ↓reduceIte]; simp
+  · simp only [h2, ↓reduceIte]
+    have h3 : ¬ (s < g.first) := by omega
+    simp only [h3, ↓reduceIte]
+    cases hc : compGet g.data.length g.size (s - g.first) with
+    | none => simp
+    | some off =>
+      obtain ⟨hoff, hfit⟩ := compGet_some hc
+      simp only []
+      cases hrd : readAt g.data off g.size with
+      | none => simp
+      | some e =>
+        simp only []
+        by_cases he : e > 0
+        · simp only [he, ↓reduceIte]
+          refine ⟨by simp, fun _ => ⟨by omega, by omega⟩, fun a ha => ?_⟩
+          injection ha with ha
+          subst ha
+          simp only
+          refine ⟨hs.1, by omega, he, by rw [← hoff]; exact hfit, ?_⟩
+          rw [← hoff]; exact (readAt_some hrd).2
+        · simp only [he, ↓reduceIte]
+          exact ⟨by simp, fun _ => ⟨by omega, by omega⟩, fun a ha => by cases ha⟩
+
+
+/-- what `gid_to_entry_iter` promises for glyph map `g` -/
+def GidItemOk (g : GmView) (gc : Nat) (a : Nat × Nat) : Prop :=
+  g.first ≤ a.1 ∧ a.1 < gc ∧ 0 < a.2 ∧
+    (a.1 - g.first) * g.size + g.size ≤ g.data.length ∧ a.2 = beAt g.data ((a.1 - g.first) * g.size) g.size
+
+theorem gidTrace_facts (d : List Nat) (h : F1Hdr) (hr : f1Read d = some h) (hb : ∀ b ∈ d, b < 256) :
+    (∀ e, f1GlyphMap d h = .error e → gidTrace d h = some []) ∧
+    (∀ g, f1GlyphMap d h = .ok g →
+      ∃ evs, gidTrace d h = some evs ∧ evs.length ≤ h.glyphCount - g.first ∧
+        (h.glyphCount - g.first) * g.size + 2 ≤ d.length ∧ 1 ≤ g.size ∧
+        trapped evs = false ∧ ∀ a ∈ items evs, GidItemOk g h.glyphCount a) := by
+  obtain ⟨_, hgc, _, _⟩ := f1Read_some hr
+  have hgcb : h.glyphCount < 16777216 := by rw [hgc]; exact beAt_lt d hb 25 3
+  refine ⟨fun e he => ?_, fun g hg => ?_⟩
+  · unfold gidTrace
+    simp only [he]
+    simp [run, gidStep]
+  · unfold gidTrace
+    simp only [hg]
+    -- the glyph map sits inside the table
+    unfold f1GlyphMap at hg
+    cases hres : resolveOff d h.gmOff with
+    | error e => simp [hres] at hg
+    | ok sub =>
+      obtain ⟨_, hoff, hsub⟩ := resolveOff_ok hres
+      simp only [hres] at hg
+      obtain ⟨hfirst, hsize, hlen, hfit, _⟩ := glyphMapRead_ok hg
+      have hfb : g.first < 65536 := by
+        rw [hfirst, hsub, beAt_drop]; exact beAt_lt d hb _ 2
+      have hsz : 1 ≤ g.size := by rw [hsize]; unfold u8or16Size; split <;> omega
+      obtain ⟨evs, he, hl, ht, hp⟩ := run_inv (gidStep (some g) h.glyphCount) (fun s => h.glyphCount - s)
+        (fun s => g.first ≤ s ∧ s ≤ max g.first h.glyphCount) (GidItemOk g h.glyphCount)
+        (fun s hs => gidStep_facts g h.glyphCount s hgcb hfb hs)
+        (h.glyphCount + 2) g.first ⟨Nat.le_refl _, by omega⟩ (by omega)
+      refine ⟨evs, he, hl, ?_, hsz, ht, hp⟩
+      have : sub.length = d.length - h.gmOff := by rw [hsub]; simp
+      rw [← hlen]; omega
+
+
+theorem featureMapRead_ok {sub : List Nat} {mei n rs : Nat} (h : featureMapRead sub mei = .ok (n, rs)) :
+    rs = 4 + 2 * u8or16Size mei ∧ n = beAt sub 0 2 ∧ 2 + n * rs ≤ sub.length := by
+  unfold featureMapRead at h
+  cases h0 : readAt sub 0 2 with
+  | none => simp [h0] at h
+  | some m =>
+    simp only [h0] at h
+    cases hm : checkedMul m (4 + 2 * u8or16Size mei) with
+    | none => simp [hm] at h
+    | some bl =>
+      obtain ⟨hbl, _⟩ := checkedMul_some hm
+      simp only [hm] at h
+      split at h
+      · injection h with h
+        injection h with h1 h2
+        subst h1; subst h2
+        exact ⟨rfl, (readAt_some h0).2, by omega⟩
+      · cases h
+
+/-- the `entry_map_count` of feature record `i` -/
+def recCount (recs : List Nat) (rs w i : Nat) : Nat := beAt recs (rs * i + 4 + w) w
+
+theorem ersLoop_ok (recs : List Nat) (rs w fw n : Nat) (hlen : recs.length = n * rs) (hrs : rs = 4 + 2 * w)
+    (hw : w = 1 ∨ w = 2) (hfw : fw ≤ 2) (hb : ∀ b ∈ recs, b < 256) (hl : recs.length ≤ MAXU) :
+    ∀ (is : List Nat) (acc : Nat), (∀ i ∈ is, i < n) → acc + is.length * (65535 * 4) ≤ MAXU →
+      ersLoop recs rs w fw is acc = .ok (is.foldl (fun a i => a + recCount recs rs w i * fw * 2) acc) ∧
+      is.foldl (fun a i => a + recCount recs rs w i * fw * 2) acc ≤ acc + is.length * (65535 * 4) := by
+  intro is
+  induction is with
+  | nil => intro acc _ _; exact ⟨rfl, by simp⟩
+  | cons i rest ih =>
+    intro acc hall hacc
+    have hi : i < n := hall i (by simp)
+    have hmul : (i + 1) * rs ≤ n * rs := Nat.mul_le_mul_right _ hi
+    rw [Nat.succ_mul] at hmul
+    have hst : rs * i ≤ recs.length := by rw [Nat.mul_comm]; omega
+    have hcm : checkedMul rs i = some (rs * i) := by
+      unfold checkedMul
+      have : rs * i ≤ MAXU := by omega
+      simp only [this, ↓reduceIte]
+    unfold ersLoop
+    simp only [hcm]
+    have hng : ¬ (rs * i > recs.length) := by omega
+    simp only [hng, ↓reduceIte]
+    -- the record fits
+    have hdl : (recs.drop (rs * i)).length = recs.length - rs * i := by simp
+    have hdm : (recs.drop (rs * i)).length ≤ MAXU := by omega
+    have hfit : 4 + 2 * w ≤ (recs.drop (rs * i)).length := by
+      rw [hdl, ← hrs, Nat.mul_comm rs i]; omega
+    have hcnt : featureRecordCount (recs.drop (rs * i)) w = some (recCount recs rs w i) := by
+      unfold featureRecordCount
+      rw [readAt_of_le (by omega : 0 + 4 ≤ _) hdm, readAt_of_le (by omega : 4 + w ≤ _) hdm,
+        readAt_of_le (by omega : 4 + w + w ≤ _) hdm]
+      simp only [recCount, beAt_drop]
+      have : rs * i + (4 + w) = rs * i + 4 + w := by omega
+      rw [this]
+    rw [hcnt]
+    simp only [List.foldl_cons]
+    have hc : recCount recs rs w i < 65536 := by
+      have := beAt_lt recs hb (rs * i + 4 + w) w
+      unfold recCount
+      rcases hw with rfl | rfl
+      · have : beAt recs (rs * i + 4 + 1) 1 < 256 ^ 1 := this
+        omega
+      · exact this
+    generalize recCount recs rs w i = c at hc ⊢
+    have h2 : c * fw ≤ 65535 * 2 := Nat.mul_le_mul (by omega) hfw
+    simp only [List.length_cons] at hacc
+    have hnt : ¬ (c * fw > MAXU ∨ c * fw * 2 > MAXU ∨ acc + c * fw * 2 > MAXU) := by
+      simp only [MAXU] at hacc ⊢; omega
+    simp only [hnt, ↓reduceIte]
+    obtain ⟨h3, h4⟩ := ih (acc + c * fw * 2) (fun j hj => hall j (List.mem_cons_of_mem _ hj)) (by omega)
+    exact ⟨h3, by simp only [List.length_cons]; omega⟩
+
+/-- `FeatureMap::entry_records_size`: `Ok(Σ count · width · 2)`, below 2^34, no trap, no `Err` -/
+theorem entryRecordsSize_facts (sub : List Nat) (meiOwn meiArg n rs : Nat)
+    (hr : featureMapRead sub meiOwn = .ok (n, rs)) (hl : sub.length ≤ MAXU) (hb : ∀ b ∈ sub, b < 256) :
+    ∃ v, entryRecordsSize sub meiOwn meiArg = .ok v ∧ v ≤ n * (65535 * 4) ∧ n * rs + 2 ≤ sub.length ∧
+      v = (List.range n).foldl (fun a i => a + recCount ((sub.drop 2).take (n * rs)) rs (u8or16Size meiOwn) i *
+        (if meiArg < 256 then 1 else 2) * 2) 0 := by
+  obtain ⟨hrs, hn, hfit⟩ := featureMapRead_ok hr
+  have hnb : n < 65536 := by rw [hn]; exact beAt_lt sub hb 0 2
+  unfold entryRecordsSize
+  simp only [hr]
+  have hlen : ((sub.drop 2).take (n * rs)).length = n * rs := by
+    simp only [List.length_take, List.length_drop]; omega
+  have hw : u8or16Size meiOwn = 1 ∨ u8or16Size meiOwn = 2 := by unfold u8or16Size; split <;> simp
+  have hrs6 : 6 ≤ rs := by omega
+  have hcl : compLen ((sub.drop 2).take (n * rs)).length rs = n := by
+    unfold compLen
+    have : rs ≠ 0 := by omega
+    simp only [this, ↓reduceIte, hlen]
+    exact Nat.mul_div_cancel _ (by omega)
+  rw [hcl]
+  have hfw : (if meiArg < 256 then 1 else 2) ≤ 2 := by split <;> omega
+  obtain ⟨h1, h2⟩ := ersLoop_ok ((sub.drop 2).take (n * rs)) rs (u8or16Size meiOwn) (if meiArg < 256 then 1 else 2) n
+    hlen hrs hw hfw (fun b hb' => hb b (List.mem_of_mem_drop (List.mem_of_mem_take hb'))) (by omega)
+    (List.range n) 0 (fun i hi => List.mem_range.mp hi) (by
+      simp only [List.length_range, MAXU]
+      have : n * (65535 * 4) ≤ 65536 * (65535 * 4) := Nat.mul_le_mul_right _ (by omega)
+      omega)
+  refine ⟨_, h1, ?_, by omega, rfl⟩
+  simpa using h2
+
+/-- the size computed from the bytes is the one of the C19 decoder model (Model/PatchMapDecode.lean
+`entryRecordsSize`) on any table view whose records carry these counts -/
+theorem entryRecordsSize_eq_C19 (t : PatchMap.F1Table) (cs : List Nat) (hc : t.featRecs.map (·.count) = cs) :
+    PatchMap.entryRecordsSize t = cs.foldl (fun a c => a + c * (if t.maxEntry < 256 then 1 else 2) * 2) 0 := by
+  unfold PatchMap.entryRecordsSize
+  rw [← hc, List.foldl_map]
+
+
+theorem gpRead_some {d : List Nat} {wide : Bool} {h : GpHdr} (hr : gpRead d wide = some h) :
+    h.w = (if wide then 3 else 2) ∧ h.idsAt = 5 ∧ h.idsAt + h.gc * h.w ≤ h.offsAt ∧
+      h.offsAt + h.nOffs * 4 ≤ d.length := by
+  unfold gpRead at hr
+  cases h0 : readAt d 0 4 with
+  | none => simp [h0] at hr
+  | some gc =>
+    cases h4 : readAt d 4 1 with
+    | none => simp [h0, h4] at hr
+    | some tc =>
+      simp only [h0, h4] at hr
+      cases hm1 : checkedMul gc (if wide then 3 else 2) with
+      | none => simp [hm1] at hr
+      | some idsLen =>
+        cases hm2 : checkedMul tc 4 with
+        | none => simp [hm1, hm2] at hr
+        | some tabLen =>
+          simp only [hm1, hm2] at hr
+          cases hm3 : checkedMul (satAdd (satMul gc tc) 1) 4 with
+          | none => simp [hm3] at hr
+          | some offLen =>
+            simp only [hm3, Option.ite_none_right_eq_some, Option.some.injEq] at hr
+            obtain ⟨hfit, hr⟩ := hr
+            subst hr
+            obtain ⟨e1, _⟩ := checkedMul_some hm1
+            obtain ⟨e3, _⟩ := checkedMul_some hm3
+            simp only
+            exact ⟨trivial, trivial, by omega, by omega⟩
+
+/-- the termination measure of `GlyphDataIterator`: glyph ids left, 0 once failed -/
+def gdMu (h : GpHdr) (s : GdSt) : Nat := if s.failed then 0 else h.gc - s.k
+
+/-- what a successful item promises: the glyph data lies inside the table -/
+def GdItemOk (d : List Nat) (x : Except AErr (Nat × Nat × Nat)) : Prop :=
+  ∀ g st ln, x = .ok (g, st, ln) → 0 < st ∧ st + ln ≤ d.length
+
+theorem gdData_facts (d : List Nat) (h : GpHdr) (s s2 : GdSt) (gid st en : Nat)
+    (hmu : ∀ f, gdMu h { s2 with failed := f } < gdMu h s) :
+    (gdData d s2 gid st en).1 ≠ .trap ∧ gdMu h (gdData d s2 gid st en).2 < gdMu h s ∧
+    (∀ a, (gdData d s2 gid st en).1 = .yield a → GdItemOk d a ∧
+      ((∃ e, a = .error e) → (gdData d s2 gid st en).2.failed = true)) := by
+  have hmu2 : gdMu h s2 < gdMu h s := by
+    have := hmu s2.failed
+    simpa using this
+  unfold gdData
+  split
+  · refine ⟨by simp, hmu _, fun a ha => ?_⟩
+    injection ha with ha; subst ha
+    exact ⟨fun g st ln hx => (by cases hx), fun _ => rfl⟩
+  · cases hres : resolveOff d st with
+    | error e =>
+      refine ⟨by simp, hmu _, fun a ha => ?_⟩
+      injection ha with ha; subst ha
+      exact ⟨fun g st ln hx => (by cases hx), fun _ => rfl⟩
+    | ok data =>
+      obtain ⟨hst0, hstl, hdata⟩ := resolveOff_ok hres
+      simp only []
+      split
+      · rename_i hfit
+        refine ⟨by simp, hmu2, fun a ha => ?_⟩
+        injection ha with ha; subst ha
+        refine ⟨fun g st' ln hx => ?_, fun hx => ?_⟩
+        · injection hx with hx
+          injection hx with _ hx
+          injection hx with h1 h2
+          subst h1; subst h2
+          rw [hdata] at hfit
+          simp only [List.length_drop] at hfit
+          exact ⟨by omega, by omega⟩
+        · obtain ⟨e, he⟩ := hx; cases he
+      · refine ⟨by simp, hmu _, fun a ha => ?_⟩
+        injection ha with ha; subst ha
+        exact ⟨fun g st ln hx => (by cases hx), fun _ => rfl⟩
+
+theorem gdStep_facts (d : List Nat) (h : GpHdr) (si : Nat) (s : GdSt) (hl : d.length ≤ MAXU)
+    (hoffs : h.offsAt + h.nOffs * 4 ≤ d.length) :
+    (gdStep d h si s).1 ≠ .trap ∧
+    ((gdStep d h si s).1 ≠ .done → gdMu h (gdStep d h si s).2 < gdMu h s) ∧
+    (∀ a, (gdStep d h si s).1 = .yield a → GdItemOk d a ∧
+      ((∃ e, a = .error e) → (gdStep d h si s).2.failed = true)) := by
+  unfold gdStep
+  by_cases hf : s.failed = true
+  · simp [hf]
+  · simp only [hf, Bool.false_eq_true, ↓reduceIte]
+    by_cases hk : s.k ≥ h.gc
+    · simp [hk]
+    · simp only [hk, ↓reduceIte]
+      by_cases hz : si + s.k ≥ h.nOffs ∨ satAdd si 1 + s.k ≥ h.nOffs
+      · simp [hz]
+      · simp only [hz, ↓reduceIte]
+        have hz1 : si + s.k < h.nOffs := by omega
+        have hz2 : satAdd si 1 + s.k < h.nOffs := by omega
+        rw [readAt_of_le (by omega : h.offsAt + 4 * (si + s.k) + 4 ≤ d.length) hl,
+          readAt_of_le (by omega : h.offsAt + 4 * (satAdd si 1 + s.k) + 4 ≤ d.length) hl]
+        simp only []
+        generalize beAt d (h.offsAt + 4 * (si + s.k)) 4 = st
+        generalize beAt d (h.offsAt + 4 * (satAdd si 1 + s.k)) 4 = en
+        have hmu : ∀ (p : Option Nat) (f : Bool), gdMu h { k := s.k + 1, prev := p, failed := f } < gdMu h s := by
+          intro p f
+          unfold gdMu
+          simp only [hf]
+          cases f <;> simp <;> omega
+        cases hgid : readAt d (h.idsAt + h.w * s.k) h.w with
+        | none =>
+          simp only []
+          refine ⟨by simp, fun _ => hmu _ _, fun a ha => ?_⟩
+          injection ha with ha; subst ha
+          exact ⟨fun g st ln hx => (by cases hx), fun _ => (by first | rfl | trivial)⟩
+        | some gid =>
+          simp only []
+          cases hp : s.prev with
+          | none =>
+            simp only []
+            obtain ⟨a, b, c⟩ := gdData_facts d h s { k := s.k + 1, prev := some gid, failed := false } gid st en
+              (fun f => hmu _ f)
+            exact ⟨a, fun _ => b, c⟩
+          | some p =>
+            simp only []
+            split
+            · refine ⟨by simp, fun _ => hmu _ _, fun a ha => ?_⟩
+              injection ha with ha; subst ha
+              exact ⟨fun g st ln hx => (by cases hx), fun _ => rfl⟩
+            · obtain ⟨a, b, c⟩ := gdData_facts d h s { k := s.k + 1, prev := some gid, failed := false } gid st en
+                (fun f => hmu _ f)
+              exact ⟨a, fun _ => b, c⟩
+
+/-- `glyph_data_for_table`: at most `glyph_count` items, no trap, every glyph's data inside the table -/
+theorem gdTrace_facts (d : List Nat) (wide : Bool) (h : GpHdr) (ti : Nat) (hr : gpRead d wide = some h)
+    (hl : d.length ≤ MAXU) :
+    ∃ evs, gdTrace d h ti = some evs ∧ evs.length ≤ h.gc ∧ 5 + h.gc * 2 ≤ d.length ∧
+      trapped evs = false ∧ ∀ a ∈ items evs, GdItemOk d a := by
+  obtain ⟨hw, hids, h1, h2⟩ := gpRead_some hr
+  unfold gdTrace
+  obtain ⟨evs, he, hlen, ht, hp⟩ := run_inv (gdStep d h (gdStartIndex h ti)) (gdMu h) (fun _ => True) (GdItemOk d)
+    (fun s _ => by
+      obtain ⟨a, b, c⟩ := gdStep_facts d h (gdStartIndex h ti) s hl h2
+      exact ⟨a, fun hnd => ⟨trivial, b hnd⟩, fun x hx => (c x hx).1⟩)
+    (h.gc + 2) { k := 0, prev := none, failed := false } trivial (by simp [gdMu])
+  refine ⟨evs, he, by simpa [gdMu] using hlen, ?_, ht, hp⟩
+  have : h.gc * 2 ≤ h.gc * h.w := Nat.mul_le_mul_left _ (by rw [hw]; split <;> omega)
+  omega
+
+/-! ## example tables for the non-vacuity examples of Props/C01HandAat.lean -/
+
+/-- the example table of the Apple `kern` chapter (7 classes, class table for glyphs 3..6):
+glyph 5 has class 3; entry (state 2, class 1) is `(2, 0x8114)` -/
+def exState : List Nat :=
+  [0,7, 0,10, 0,18, 0,40, 0,64,  0,3, 0,4, 1,2,3,4,
+   2,0,0,2,1,0,0, 2,0,0,2,1,0,0, 2,3,3,2,3,4,5, 0,
+   0,18,0x81,0x12, 0,32,0x81,0x12, 0,18,0,0, 0,32,0x81,0x14, 0,18,0x81,0x16]
+
+/-- format 6 lookup with UNSORTED keys: the search still ends inside the table -/
+def exLookup6 : List Nat := [0,6, 0,4, 0,3, 0,0, 0,0, 0,0,  0,9, 0,1,  0,2, 0,7,  0,5, 0,3]
+
+/-- a format 1 patch map: max_entry_index 3, 5 glyphs, glyph map at 41 (first mapped glyph 2, entries
+2 0 1), no feature map, bitmap `0b0101`, template "a" -/
+def exF1 : List Nat :=
+  [1,0,0,0, 0] ++ List.replicate 16 7 ++ [0,3, 0,3, 0,0,5, 0,0,0,41, 0,0,0,0, 5, 0,1,97, 0,  0,2, 2,0,1]
+
+/-- glyph patches: 2 glyphs (ids 5, 9), 1 table, offsets 21, 23, 24; table 0 yields both, table 1 nothing -/
+def exGp : List Nat := [0,0,0,2, 1, 0,5, 0,9, 103,108,121,102, 0,0,0,25, 0,0,0,27, 0,0,0,28, 1,2,3]
 
 end FontVerif.HandAat
